@@ -133,6 +133,12 @@ class FieldCodeGenerator:
                 + "(must be a basic type)."
             )
 
+        if isinstance(field_type, IntegerType) and not self._hardcoded_value.isdigit():
+            raise RuntimeError(f'"{self._hardcoded_value}" is not a valid integer value.')
+
+        if isinstance(field_type, BoolType) and self._hardcoded_value not in ("true", "false"):
+            raise RuntimeError(f'"{self._hardcoded_value}" is not a valid bool value.')
+
     def _validate_unique_name(self):
         if self._name is None:
             return
